@@ -325,27 +325,34 @@ Fixpoint take (n : nat) (l : list Z) : list Z * list Z :=
   end.
 Definition take_len (l : list Z) : list Z * list Z :=
   match l with n :: r => take (Z.to_nat n) r | [] => ([], []) end.
-Fixpoint dec_tbl (n : nat) (l : list Z) : list (list Z * pinfo) * list Z :=
+(* table entry: [parent entry index + 1 (0 = the empty history) ; last result + 1 ; n pending ; pending ... ;
+   16 * timer + function id]; parents come before children *)
+Fixpoint dec_tbl (n : nat) (acc : list (list Z)) (l : list Z) : list (list Z * pinfo) * list Z :=
   match n with
   | O => ([], l)
   | S n' =>
-      let '(h, l1) := take_len l in
-      let '(p, l2) := take_len l1 in
-      match l2 with
-      | t :: f :: l3 => let '(r, l4) := dec_tbl n' l3 in
-                        ((h, {| p_pending := p ; p_tmo := t =? 1 ; p_fid := f |}) :: r, l4)
+      match l with
+      | par :: last :: l1 =>
+          let h := if par =? 0 then [] else nth (Z.to_nat (par - 1)) acc [] ++ [last - 1] in
+          let '(p, l2) := take_len l1 in
+          match l2 with
+          | tf :: l3 => let '(r, l4) := dec_tbl n' (acc ++ [h]) l3 in
+                        ((h, {| p_pending := p ; p_tmo := 16 <=? tf ; p_fid := tf mod 16 |}) :: r, l4)
+          | [] => ([], [])
+          end
       | _ => ([], [])
       end
   end.
+(* journal row = run * 4096 + seq * 64 + key ; operation row = run * 16 + function id *)
 Fixpoint dec_rows (n : nat) (l : list Z) : list jrow * list Z :=
   match n, l with
-  | S n', r :: s :: k :: l' => let '(x, l2) := dec_rows n' l' in
-                               ({| jr_run := r ; jr_seq := s ; jr_key := k |} :: x, l2)
+  | S n', v :: l' => let '(x, l2) := dec_rows n' l' in
+                     ({| jr_run := v / 4096 ; jr_seq := (v / 64) mod 64 ; jr_key := v mod 64 |} :: x, l2)
   | _, _ => ([], l)
   end.
 Fixpoint dec_ops (n : nat) (l : list Z) : list orow * list Z :=
   match n, l with
-  | S n', r :: f :: l' => let '(x, l2) := dec_ops n' l' in ({| or_run := r ; or_fid := f |} :: x, l2)
+  | S n', v :: l' => let '(x, l2) := dec_ops n' l' in ({| or_run := v / 16 ; or_fid := v mod 16 |} :: x, l2)
   | _, _ => ([], l)
   end.
 Definition dec_db (l : list Z) : db * list Z :=
@@ -384,14 +391,14 @@ Fixpoint dec_runs (t : list (list Z * pinfo)) (n : nat) (idx : Z) (l : list Z) :
   end.
 Definition loop_case (l : list Z) : Z :=
   match l with
-  | nt :: l0 => let '(t, l1) := dec_tbl (Z.to_nat nt) l0 in
+  | nt :: l0 => let '(t, l1) := dec_tbl (Z.to_nat nt) [] l0 in
                 match l1 with nr :: l2 => dec_runs t (Z.to_nat nr) 0 l2 | [] => -1 end
   | [] => -1
   end.
 (* diagnostics for one run: observable state after the first n events *)
 Definition loop_obs_at (tl : list Z) (dl : list Z) (evs : list Z) (n : Z) : list Z :=
   match tl with
-  | nt :: l0 => let '(t, _) := dec_tbl (Z.to_nat nt) l0 in
+  | nt :: l0 => let '(t, _) := dec_tbl (Z.to_nat nt) [] l0 in
                 let '(d, _) := dec_db dl in
                 obs_at 0 (tbl_prog t) d (map dec_ev evs) (Z.to_nat n)
   | [] => []
@@ -402,12 +409,14 @@ Definition dec_jop (c a b k : Z) : jop :=
   else if c =? 4 then OReplaying else if c =? 5 then OHasEntries else if c =? 6 then OPurge a
   else if c =? 7 then ONewJournal (a =? 1) else if c =? 8 then ORawInsert a b k else if c =? 9 then ORawTruncate a b
   else if c =? 10 then ORawDelete a else if c =? 11 then ORawLoad a else ORawOp a b.
+(* op = ((code * 12 + (a + 1)) * 12 + (b + 1)) * 8 + k *)
 Fixpoint dec_jops (n : nat) (l : list Z) : list jop * list Z :=
   match n, l with
-  | S n', c :: a :: b :: k :: l' => let '(x, l2) := dec_jops n' l' in (dec_jop c a b k :: x, l2)
+  | S n', v :: l' => let '(x, l2) := dec_jops n' l' in
+                     (dec_jop (v / 1152) ((v / 96) mod 12 - 1) ((v / 8) mod 12 - 1) (v mod 8) :: x, l2)
   | _, _ => ([], l)
   end.
-(* [nops ; ops (4 ints each) ; expected output ...] *)
+(* [nops ; ops ; expected output ...] *)
 Definition jops_case (l : list Z) : Z :=
   match l with
   | n :: l0 => let '(ops, expected) := dec_jops (Z.to_nat n) l0 in
